@@ -61,13 +61,20 @@ fn chain_case(rng: &mut Rng, rec: &mut Rec) {
         Ok(f) => f,
         Err(e) => return rec.fail("C13/setup", format!("{:?}", e)),
     };
+    let mut added_for_previous: Option<String> = None;
     for hop_i in 0..hops {
         let (kind, loc) = clean_location(rng, &original);
         rec.cov(&format!("location-kind/{}", kind));
         let hop = Hop { status: { let mut st = rng.usize_in(300, 399) as u16; if st == 304 { st = 303; } st }, locations: vec![loc.clone().into_bytes()], with_body: rng.chance(1, 3) };
         // the caller attaches its own cookie for this hop (must not be confused with the inherited one)
-        if hop_i > 0 && rng.chance(1, 2) {
-            let _ = flow.header("cookie", format!("t{}-jar=fresh", hop_i));
+        let mut added_now = None;
+        if rng.chance(1, 2) {
+            // (on the first request too: a cookie or a token added there through header() is the first
+            // request's, the redirect must not carry it along either)
+            let v = format!("t{}-jar=fresh", hop_i);
+            let name = if hop_i == 0 && rng.chance(1, 2) { "authorization" } else { "cookie" };
+            let _ = flow.header(name, v.clone());
+            added_now = Some(v);
         }
         if hop_i > 0 && !needs_body(eff.method) && rng.chance(1, 5) {
             // a body forced onto the redirected request: whatever framing it gets is its own
@@ -86,6 +93,13 @@ fn chain_case(rng: &mut Rng, rec: &mut Rec) {
         if hop_i > 0 && !check_head(&head, &cfg, &eff, policy, &original, hop_i, rec) {
             return;
         }
+        if let Some(prev) = &added_for_previous {
+            if head.windows(prev.len()).any(|w| w == prev.as_bytes()) {
+                return rec.fail("C13/previous-requests-added-credential-carried-over", format!("request #{} carries {:?}, which the caller added to the request before it", hop_i, prev));
+            }
+            rec.cov("previous-added-credential/not-carried-over");
+        }
+        added_for_previous = added_now;
         match followed {
             Followed::Next(f, e) => {
                 rec.ev(|| format!("hop {}: {} Location {:?} ({}) -> {} {}", hop_i, hop.status, loc, kind, e.method, normalise(&e.uri)));
@@ -215,6 +229,7 @@ impl Property for P {
         v.push(("original/explicit-host".into(), 1000));
         v.push(("original/host-header-names-another-host".into(), 300));
         v.push(("redirected/head-through-small-buffers".into(), 1000));
+        v.push(("previous-added-credential/not-carried-over".into(), 1000));
         v
     }
 }
